@@ -5,6 +5,8 @@ D=$1; WT=$2
 cd "$WT" || exit 2
 git checkout -q -- . ; git clean -fdq -e target
 CMD=${DEMO_CMD:-$(awk '/^## Run the demonstration/{f=1;next} /^## /{f=0} f && /cargo test/{sub(/^ +/,""); print; exit}' "$D/RUN.md")}
+# the script applies demo.diff itself and runs in the worktree: drop such steps from the documented command
+CMD=$(printf '%s' "$CMD" | sed -E 's/^(cd [^&]*&& *)?(git apply [^&]*&& *)?//')
 [ -z "$CMD" ] && { echo "no demo command found in RUN.md"; exit 2; }
 LOG="$D/confirm.log"; : > "$LOG"
 echo "demo command: $CMD" | tee -a "$LOG"
